@@ -22,8 +22,18 @@ ASSUMPTIONS = [
 ]
 
 
+def family(tier):
+    """the shared deployment family plus deployments with the library's Proxy driver next to the generated drivers:
+    it accepts every device name (to forward traffic upstream) but must define only its own property, and only when
+    it is addressed itself or nobody is"""
+    fam = list(DP.family(tier))
+    for variant, ndev in (("text", 1), ("switch-OneOfMany", 2), ("blob", 2)):
+        fam.append(dict(variant=variant, vec_enabled=True, grp_enabled=True, depth=1, ndev=ndev, ngroups=2, proxy=True))
+    return fam
+
+
 def shards(tier, seed):
-    fam = DP.family(tier)
+    fam = family(tier)
     return [(tier, i) for i in range(len(fam))]
 
 
@@ -34,7 +44,7 @@ class Sys:
 
         from mc.gen import drivers as D
 
-        self.specs = DP.deployment(**p)
+        self.specs = DP.deployment(**{k: v for k, v in p.items() if k != "proxy"})
         hk = p["variant"].split("-")[0] if p.get("read_refresh") else None
         M_now = M.now
         self._M = M
@@ -50,6 +60,11 @@ class Sys:
             classes.append(cls)
             alldefs.append(defs)
             self.devs.append(cls(router=self.router))
+        self.proxy = None
+        if p.get("proxy"):
+            from indi.device.proxy import Proxy
+
+            self.proxy = type("PX", (Proxy,), {"name": "PX", "address": "127.0.0.1"})(router=self.router)
         self.log = []
         outer = self
 
@@ -216,8 +231,8 @@ def check_state(sysm, p, path, res, viol):
         for vn, tv in truths[di].items():
             if not tv["enabled"]:
                 viol("enabled-flag", "other-device", "after %r: DEV%d/%s became disabled" % (path, di, vn), {"p": p, "path": path, "req": None})
-    for device in names + [None, "NOPE"]:
-        for name in [None] + vnames + ["NOPE"]:
+    for device in names + [None, "NOPE"] + (["PX"] if sysm.proxy is not None else []):
+        for name in [None] + vnames + ["NOPE"] + (["CONNECTION"] if sysm.proxy is not None else []):
             rep = {"p": p, "path": path, "req": [device, name]}
             try:
                 msgs = sysm.request(device, name)
@@ -237,6 +252,8 @@ def check_state(sysm, p, path, res, viol):
                         continue
                     if tv["enabled"]:
                         want.append((dn, vn))
+            if sysm.proxy is not None and device in (None, "PX") and name in (None, "CONNECTION"):
+                want.append(("PX", "CONNECTION"))
             got = []
             for m in msgs:
                 tn = type(m).__name__
@@ -258,7 +275,7 @@ def check_state(sysm, p, path, res, viol):
                 continue
             res["counters"]["defs"] = res["counters"].get("defs", 0) + len(got)
             for m in msgs:
-                if type(m).__name__.startswith("Def"):
+                if type(m).__name__.startswith("Def") and m.device != "PX":
                     t = dict(zip(names, truths))[m.device][m.name]
                     try:
                         view = X.view_of_xml(m.to_string())
@@ -276,7 +293,7 @@ def reqclass(device, name):
 
 def run_shard(shard):
     tier, i = shard
-    p = DP.family(tier)[i]
+    p = family(tier)[i]
     depth = 3 if tier == "quick" else 4
     res = {"states": 0, "transitions": 0, "violations": [], "samples": [], "counters": {}}
     sig = {}
@@ -367,7 +384,7 @@ def finish(tier, seed, m):
         "states": m["states"],
         "transitions": m["transitions"],
         "traces_validated_against_impl": m["transitions"],
-        "deployments": len(DP.family(tier)),
+        "deployments": len(family(tier)),
         "definitions_checked": m["counters"].get("defs", 0),
         "emitted_messages_reparsed": m["counters"].get("emitted", 0),
         "samples": m["samples"][:1],
